@@ -63,13 +63,19 @@ pub struct TableProvider {
     pub cancel: RefCell<CancelPlan>,
     pub gates: Option<Rc<Gates>>,
     pub gate_filter_sort: bool,
+    pub first_fired: Cell<Option<usize>>,
+    /// > 0 while the provider's own `sort_candidates` is running (polls made on its behalf are logged `Q`, not `P`)
+    pub in_sort: Cell<u32>,
     pub sort_peeks_deps: bool,
+    /// the look-ahead of `sort_candidates` is concurrent (dependencies of all candidates at once, then the candidates of every
+    /// package they mention at once) and drops what is outstanding when a request is refused
+    pub sort_peeks_join: bool,
 }
 
 impl TableProvider {
     pub fn new(u: Universe) -> Self {
         TableProvider { u, log: RefCell::new(Vec::new()), polls: Cell::new(0), calls_started: Cell::new(0), raised: Cell::new(false), cancel: RefCell::new(CancelPlan::default()),
-            gates: None, gate_filter_sort: false, sort_peeks_deps: false }
+            gates: None, gate_filter_sort: false, first_fired: Cell::new(None), in_sort: Cell::new(0), sort_peeks_deps: false, sort_peeks_join: false }
     }
     async fn gate(&self, label: String) {
         if let Some(g) = &self.gates {
@@ -129,9 +135,32 @@ impl DependencyProvider for TableProvider {
 
     async fn sort_candidates(&self, solver: &SolverCache<Self>, solvables: &mut [SolvableId]) {
         if self.gate_filter_sort { self.gate(format!("s{}", solvables.first().map(|s| s.0 as i64).unwrap_or(-1))).await; }
-        if self.sort_peeks_deps {
-            for s in solvables.iter() { let _ = solver.get_or_cache_dependencies(*s).await; }
-        }
+        // the look-ahead runs under `Flagged`: every poll of it (and so every cancellation poll made by the SolverCache calls
+        // it issues) happens with `in_sort` raised
+        let solvables_ro: &[SolvableId] = solvables;
+        Flagged { f: Box::pin(async move {
+            let solvables = solvables_ro;
+        if self.sort_peeks_deps && self.sort_peeks_join {
+                // one pipeline per candidate, all pipelines at once: the candidate's dependencies, then the candidates of every
+                // package they mention (so the look-ahead of one candidate polls while the dependencies of another are still
+                // in flight); the first refusal drops everything that is outstanding
+                let pipelines = solvables.iter().map(|s| async move {
+                    let d = solver.get_or_cache_dependencies(*s).await?;
+                    let mut names: Vec<NameId> = Vec::new();
+                    if let Dependencies::Known(k) = d {
+                        for r in &k.requirements {
+                            let vss: Vec<VersionSetId> = match r { Requirement::Single(v) => vec![*v], Requirement::Union(u) => self.version_sets_in_union(*u).collect() };
+                            for v in vss { let n = self.version_set_name(v); if !names.contains(&n) { names.push(n); } }
+                        }
+                    }
+                    futures::future::try_join_all(names.iter().map(|n| solver.get_or_cache_candidates(*n))).await?;
+                    Ok::<(), Box<dyn Any>>(())
+                });
+                let _ = futures::future::try_join_all(pipelines).await;
+            } else if self.sort_peeks_deps {
+                for s in solvables.iter() { let _ = solver.get_or_cache_dependencies(*s).await; }
+            }
+        }), flag: &self.in_sort }.await;
         solvables.sort_by_key(|s| self.u.solvs.get(&s.0).map(|x| x.rank).unwrap_or(0));
     }
 
@@ -155,8 +184,26 @@ impl DependencyProvider for TableProvider {
         self.polls.set(k + 1);
         let plan = self.cancel.borrow();
         let fire = match plan.at { Some(at) => if plan.transient { k == at } else { k >= at }, None => false } || self.raised.get();
-        self.log.borrow_mut().push(format!("{}{}", if fire { 'P' } else { 'p' }, k));
-        if fire { Some(Box::new(7000u64 + k as u64)) } else { None }
+        // `Q`: the value goes to a SolverCache call made from inside the provider's sort_candidates, which cannot hand it to
+        // the solver; `P`: the value goes to the solver itself
+        self.log.borrow_mut().push(format!("{}{}", if fire { if self.in_sort.get() > 0 { 'Q' } else { 'P' } } else { 'p' }, k));
+        // a look-ahead provider swallows a refusal it receives inside sort_candidates; the value the solver reports is then
+        // that of one of its own later polls - only a constant value is preserved, so such providers return the first one
+        if fire && self.sort_peeks_deps && self.first_fired.get().is_none() { self.first_fired.set(Some(k)); }
+        let v = if self.sort_peeks_deps { self.first_fired.get().unwrap_or(k) } else { k };
+        if fire { Some(Box::new(7000u64 + v as u64)) } else { None }
+    }
+}
+
+/// A future all of whose polls run with a counter raised.
+struct Flagged<'a, T> { f: std::pin::Pin<Box<dyn Future<Output = T> + 'a>>, flag: &'a Cell<u32> }
+impl<T> Future for Flagged<'_, T> {
+    type Output = T;
+    fn poll(mut self: std::pin::Pin<&mut Self>, cx: &mut std::task::Context<'_>) -> std::task::Poll<T> {
+        self.flag.set(self.flag.get() + 1);
+        let r = self.f.as_mut().poll(cx);
+        self.flag.set(self.flag.get() - 1);
+        r
     }
 }
 
